@@ -45,15 +45,47 @@ def getCollectionValue(collection, what):
         return convertEntries({k: collection.value[k]
                                for k in sorted(collection.value.keys())})
     elif collection.isObject() and what == "values":
-        return collection.value.values()
+        return list(collection.value.values())
     elif collection.isObject() and what == "entries":
         return convertEntries(collection.value)
     elif collection.isObject():
         return collection.keys()
     elif collection.isString():
-        return [ch for ch in collection.value]
+        return [ValueString(ch) for ch in collection.value]
     else:
-        return None
+        raise CklRuntimeError(
+            ValueString("ERROR"), f"Cannot iterate over {collection.type()}"
+        )
+
+
+def indexValue(idx, pos):
+    if not idx.isInt():
+        raise CklRuntimeError(
+            ValueString("ERROR"),
+            f"Expected int index but got {idx.type()}",
+            pos,
+        )
+    return idx.value
+
+
+def destructureValues(value, count, pos):
+    if value.isList():
+        vals = value.value
+    elif value.isSet():
+        vals = value.getSortedItems()
+    else:
+        raise CklRuntimeError(
+            ValueString("ERROR"),
+            f"Cannot destructure {value.type()}",
+            pos,
+        )
+    if len(vals) < count:
+        raise CklRuntimeError(
+            ValueString("ERROR"),
+            f"Cannot destructure {len(vals)} values into {count} variables",
+            pos,
+        )
+    return vals
 
 
 def getFuncallString(fn, args):
@@ -501,7 +533,7 @@ class NodeDeref:
                     self.pos,
                 )
             s = value.value
-            i = int(idx.value)
+            i = indexValue(idx, self.pos)
             if i < 0:
                 i = i + len(s)
             if i < 0 or i >= len(s):
@@ -518,7 +550,7 @@ class NodeDeref:
                     self.pos,
                 )
             lst = value.value
-            i = int(idx.value)
+            i = indexValue(idx, self.pos)
             if i < 0:
                 i = i + len(lst)
             if i < 0 or i >= len(lst):
@@ -584,19 +616,25 @@ class NodeDerefAssign:
 
         if container.isString():
             s = container.value
-            i = int(idx.value)
+            i = indexValue(idx, self.pos)
             if i < 0:
                 i = i + len(s)
             if i < 0 or i >= len(s):
                 raise CklRuntimeError(
                     ValueString("ERROR"), f"Index out of bounds {i}", self.pos
                 )
+            if not value.isString():
+                raise CklRuntimeError(
+                    ValueString("ERROR"),
+                    f"Expected string but got {value.type()}",
+                    self.pos,
+                )
             container.value = s[0:i] + value.value + s[i+1:]
             return container
 
         if container.isList():
             lst = container.value
-            i = int(idx.value)
+            i = indexValue(idx, self.pos)
             if i < 0:
                 i = i + len(lst)
             if i < 0 or i >= len(lst):
@@ -713,8 +751,8 @@ class NodeDerefSlice:
 
         if value.isString():
             s = value.value
-            start = int(start.value)
-            end = int(end.value) if end else len(s)
+            start = indexValue(start, self.pos)
+            end = indexValue(end, self.pos) if end else len(s)
             if start < 0:
                 start += len(s)
             if end < 0:
@@ -729,8 +767,8 @@ class NodeDerefSlice:
 
         if value.isList():
             lst = value.value
-            start = int(start.value)
-            end = int(end.value) if end else len(lst)
+            start = indexValue(start, self.pos)
+            end = indexValue(end, self.pos) if end else len(lst)
             if start < 0:
                 start += len(lst)
             if end < 0:
